@@ -233,7 +233,7 @@ def coqchk(prop):
 # ------------------------------------------------------------------------------------------------
 # pipeline: programs -> implementation / model / monitors
 
-SIZES = {"quick": dict(wf=150, fault=114, free=120, known=9, chains=25, chain_exh=3, perm_bases=40, perms=3, stub_bases=30),
+SIZES = {"quick": dict(wf=150, fault=114, free=120, known=9, chains=25, chain_exh=3, perm_bases=70, perms=3, stub_bases=40),
          "thorough": dict(wf=3000, fault=1900, free=3000, known=60, chains=300, chain_exh=6, perm_bases=500, perms=4, stub_bases=400),
          "search": dict(wf=900, fault=570, free=900, known=30, chains=60, chain_exh=4, perm_bases=150, perms=3, stub_bases=120)}
 
@@ -328,7 +328,10 @@ def pipeline(seed, tier):
     drng = _random.Random(seed * 7 + 3)
     nb = len(batch)
     n_perm = n_stub = 0
-    for i in range(nb):
+    # order-dependence and cross-body leaks show up mostly next to rejected declarations: take the
+    # single-fault programs first, then the rest
+    order = sorted(range(nb), key=lambda i: (0 if batch[i][1].get("stream") == "fault" else 1, i))
+    for i in order:
         text, meta = batch[i]
         if meta.get("stream") not in ("wf", "fault", "free", "corpus"):
             continue
